@@ -14,7 +14,7 @@ TC = "/root/go/pkg/mod/golang.org/toolchain@v0.0.1-go1.24.2.linux-amd64/bin"
 ENV = dict(os.environ, PATH=TC + ":" + os.environ["PATH"], GOTOOLCHAIN="local", GOFLAGS="-mod=mod", GOPROXY="off", GOSUMDB="off")
 ENV.pop("GOWORK", None)
 BASE = set(json.load(open("/root/.vp/BASELINE.json"))["stable_pass"])
-SRC = "/tmp/seed_out"
+SRC = os.environ.get("SEED_SRC", "/tmp/seed_out")
 DST = "/verif/seeded"
 
 
